@@ -17,7 +17,7 @@ QUERIES = [
     ("Omask", "map c07_oracle_mask fault_cases"),
 ]
 BITS = [(1, "did-not-terminate-within-75s"), (2, "process-left-running"), (4, "initial-cleanup-not-once-per-actor"),
-        (8, "final-cleanup-missing-or-repeated-or-unwarranted"), (16, "cleanup-order"), (32, "exit-status")]
+        (8, "final-cleanup-missing-or-repeated-or-unwarranted"), (16, "cleanup-order"), (32, "exit-status"), (64, "sighup-handler-got-no-grace")]
 KNOWN_HANG = "running-action-or-cleanup-not-interruptible"
 ASSUMPTIONS = [
     "the theorems are about the conductor LTS of Model/Conduct.v (errors abstracted to nil / cancelled / audit violation / other; a cleanup phase is one label) and the kill-protocol function cancel_cmd; process reaping, signal delivery and the wall-clock bound are OS behaviour, observed by the harness",
